@@ -279,7 +279,7 @@ impl Property for RenameProp {
     }
 
     fn rule(&self) -> String {
-        "two thirds: clauses with many repeated variables, lists (incl. [], nested, tails, $_ tails), complex and function terms, every goal kind (and/or/not/time, unify, comparison, built-ins, !/fail/nl), renamed with the id counter set to 0 or a random start through Rule/Unifiable/Goal::recreate_variables (once and twice), get_rule and make_query; oracle (invariant): resetting ids to 0 gives back exactly the original value (derived ==), lists well formed, same name <=> same id, every id greater than the counter before the call, counter afterwards equals the largest id and no id is skipped, make_query restarts at 1. One third: a generated program is solved and after every answer get_rule is called on some predicate; oracle: none of its ids occurs in the query or in the answer's binding vector. Non-trivial = clause with a repeated variable and a list, or a renaming taken mid-search; distinct by clause / program text.".into()
+        "two thirds: clauses with many repeated variables, lists (incl. [], nested, tails, $_ tails), complex and function terms, every goal kind (and/or/not/time, unify, comparison, built-ins, !/fail/nl), renamed with the id counter set to 0 or a random start through Rule/Unifiable/Goal::recreate_variables (once and twice), get_rule and make_query (also over terms whose variables already carry ids); oracle (invariant): resetting ids to 0 gives back exactly the original value (derived ==), lists well formed, same name <=> same id, every id greater than the counter before the call, counter afterwards equals the largest id and no id is skipped, make_query restarts at 1. One third: a generated program is solved and after every answer get_rule is called on some predicate; oracle: none of its ids occurs in the query or in the answer's binding vector. Non-trivial = clause with a repeated variable and a list, or a renaming taken mid-search; distinct by clause / program text.".into()
     }
 
     fn assumptions(&self) -> Vec<String> {
